@@ -43,6 +43,8 @@ type c04Case struct {
 	Pauses  []int64    `json:"pauses"`  // virtual pause before each segment (ms), optional
 	DataKey int        `json:"datakey"` // selects the payload pattern
 	Key     int        `json:"key,omitempty"` // which of the station's keys the client was built with (prefix tags are encrypted to it)
+	Again   int        `json:"again,omitempty"` // how many more connections the same client makes on the same registration afterwards
+	SlowMs  int        `json:"slow_ms,omitempty"` // the covert starts reading only after this many milliseconds (the client has long sent everything and closed)
 }
 
 type c04Result struct {
@@ -74,7 +76,26 @@ func c04Run(e *aEnv, c c04Case, waitLimit time.Duration) (res c04Result) {
 		e.rm.AddRegistration(or)
 	}
 	e.rm.AddRegistration(reg)
+	// the same client may connect again on the same registration (it stays usable for 6 hours
+	// once it has carried a connection): every connection is judged like the first
+	for round := 0; ; round++ {
+		res = c04Once(e, c, reg, cls, waitLimit, round)
+		if res.key != "" && round > 0 {
+			res.msg = fmt.Sprintf("connection #%d of the same client on the same registration: %s", round+1, res.msg)
+		}
+		if res.key != "" || round >= c.Again {
+			break
+		}
+	}
+	if c.Again > 0 {
+		res.classes = append(res.classes, "reconnects")
+	}
+	return res
+}
+
+func c04Once(e *aEnv, c c04Case, reg *cj.DecoyRegistration, cls map[string]bool, waitLimit time.Duration, round int) (res c04Result) {
 	e.ClearAnns()
+	c.DataKey += round * 7919
 
 	writes, err := e.aFlightKey(aSecret(c.Reg.Secret), aTT[c.Reg.TT], c.Reg.PrefixID, c.Flush, c.Key)
 	if err != nil {
@@ -133,6 +154,14 @@ func c04Run(e *aEnv, c c04Case, waitLimit time.Duration) (res c04Result) {
 	conn := vconn.New(script)
 	conn.WaitLimit = waitLimit
 	e.cov.Arm(len(app), reply)
+	e.cov.SetReadDelay(time.Duration(c.SlowMs) * time.Millisecond)
+	defer e.cov.SetReadDelay(0)
+	if c.SlowMs > 0 {
+		cls["covert-reads-late"] = true
+		if len(app) >= 200000 {
+			cls["large-upload-to-late-covert"] = true
+		}
+	}
 	// mid-session observation: when the covert has received the client's data the tunnel is open and
 	// the registration is carrying a connection, so it must already be marked used (its lifetime
 	// is extended from that moment, not from the end of the session)
@@ -351,6 +380,14 @@ func c04Gen(rt *rapid.T) c04Case {
 	c.Reply = rapid.SampledFrom([]int{0, 1, 16, 5000, 40000}).Draw(rt, "reply")
 	c.DataKey = rapid.IntRange(0, 1000).Draw(rt, "datakey")
 	c.Key = rapid.IntRange(0, 1).Draw(rt, "stationkey")
+	c.Again = rapid.SampledFrom([]int{0, 0, 0, 1, 2}).Draw(rt, "again")
+	if rapid.IntRange(0, 11).Draw(rt, "slowcovert") == 0 {
+		// the client uploads, closes at once; the covert only starts reading later
+		c.SlowMs = rapid.SampledFrom([]int{40, 150}).Draw(rt, "slowms")
+		c.Early = rapid.SampledFrom([]int{4096, 65536, 262144, 1048576}).Draw(rt, "bigearly")
+		c.Reply = 0
+		c.Again = 0
+	}
 	no := rapid.IntRange(0, 4).Draw(rt, "nothers")
 	for i := 0; i < no; i++ {
 		o := aRegSpec{Secret: 10 + rapid.IntRange(0, 5).Draw(rt, "osecret"), TT: rapid.IntRange(0, 2).Draw(rt, "ott"), Phantom: rapid.SampledFrom([]int{0, 0, 1}).Draw(rt, "ophantom"), V6: c.Reg.V6}
@@ -400,9 +437,9 @@ func c04Gen(rt *rapid.T) c04Case {
 }
 
 func TestVerif_C04_random(t *testing.T) {
-	rec := vh.NewRec("C04", "random", "rapid-generated cases: transport variant x secret x family x early-data size 0..64 KiB x reply size x 0-20 cuts (biased to the flight) x virtual pauses (< 4.5 s in total) x 0-4 other registrations (other secrets, all transports, same/other phantom); non-trivial as in 'cuts' or early data sharing a segment with the tag; distinct by case")
+	rec := vh.NewRec("C04", "random", "rapid-generated cases: transport variant x secret x family x early-data size 0..64 KiB x reply size x 0-20 cuts (biased to the flight) x virtual pauses (< 4.5 s in total) x 0-4 other registrations (other secrets, all transports, same/other phantom) x 0-2 further connections of the same client on the same registration x (1 in 12) an upload of up to 1 MiB followed by an immediate close towards a covert that starts reading 40-150 ms later; non-trivial as in 'cuts' or early data sharing a segment with the tag; distinct by case")
 	defer rec.Flush()
-	rec.Require("cut-inside-tag", "cut-inside-early-data", "early-data-with-tag-segment", "transport:Min", "transport:Prefix")
+	rec.Require("cut-inside-tag", "cut-inside-early-data", "early-data-with-tag-segment", "transport:Min", "transport:Prefix", "reconnects", "large-upload-to-late-covert")
 	defer aSilenceStdout()()
 	e := c04Env(t)
 	if p := vh.ReplayFile(); p != "" {
